@@ -49,6 +49,9 @@ func TestMain(m *testing.M) {
 	code := m.Run()
 	minimizeViolations()
 	stat.Flush()
+	if trustFile != "" {
+		os.Remove(trustFile)
+	}
 	os.Exit(code)
 }
 
